@@ -11,33 +11,45 @@ import (
 
 func init() { register("C14", checkC14) }
 
-// findWalk locates the SDR walk: the function in package bmc that updates a
-// map of type bmc.SDRRepository.
+// findSDRWalk locates the SDR walk: the function of package bmc in whose
+// flattened view a map of type bmc.SDRRepository is updated and the
+// repository is reserved — the smallest such view, so that callers that merely
+// contain the walk are not taken for it.
 func (c *Ctx) findSDRWalk() (*ssa.Function, *ssa.MapUpdate) {
 	repoT := c.Named("", "SDRRepository")
 	if repoT == nil {
 		return nil, nil
 	}
+	var best *ssa.Function
+	var bestMu *ssa.MapUpdate
+	bestN := 0
 	for _, fn := range c.LibFuncs() {
 		var mu *ssa.MapUpdate
-		allInstrs(fn, false, func(in ssa.Instruction) {
+		reserves := false
+		viewInstrs(fn, func(in ssa.Instruction) {
 			if x, ok := in.(*ssa.MapUpdate); ok {
 				if n, ok := x.Map.Type().(*types.Named); ok && n.Obj() == repoT.Obj() {
 					mu = x
 				}
 			}
+			if cc := asCall(in); cc != nil && cc.IsInvoke() && cc.Method.Name() == "ReserveSDRRepository" {
+				reserves = true
+			}
 		})
-		if mu != nil {
-			return fn, mu
+		if mu != nil && reserves {
+			n := len(flatOf(fn).Ctxs)
+			if best == nil || n < bestN {
+				best, bestMu, bestN = fn, mu, n
+			}
 		}
 	}
-	return nil, nil
+	return best, bestMu
 }
 
 // typeAssertTo finds values in fn produced by asserting to *ipmi.<name>.
 func typeAssertsTo(fn *ssa.Function, n *types.Named) []*ssa.TypeAssert {
 	var out []*ssa.TypeAssert
-	allInstrs(fn, false, func(in ssa.Instruction) {
+	viewInstrs(fn, func(in ssa.Instruction) {
 		if ta, ok := in.(*ssa.TypeAssert); ok && isPtrTo(ta.AssertedType, n) {
 			out = append(out, ta)
 		}
@@ -65,54 +77,64 @@ func checkC14(c *Ctx, r *Report) {
 
 	// (1) key provenance
 	r.Rule("key-is-record-id", "records are stored under the record ID decoded from their own SDR header", 1)
-	okKey := false
-	whyKey := "map key is " + apOf(mu.Key).String()
-	if ld, ok := mu.Key.(*ssa.UnOp); ok && ld.Op == token.MUL {
-		a := apOf(ld.X)
-		for _, h := range hdrs {
-			if a.Root == ssa.Value(h) && a.SelString() == "ID" {
-				okKey = true
+	// isHdrField: v is a load of field f of a decoded SDR header (seen through helpers)
+	isHdrField := func(v ssa.Value, f string) bool {
+		ld, ok := v.(*ssa.UnOp)
+		if !ok || ld.Op != token.MUL {
+			return false
+		}
+		aps := viewAPs(walk, ld.X)
+		if len(aps) == 0 {
+			return false
+		}
+		for _, a := range aps {
+			isH := false
+			for _, h := range hdrs {
+				if a.Root == ssa.Value(h) {
+					isH = true
+				}
+			}
+			if !isH || a.SelString() != f {
+				return false
 			}
 		}
-		if !okKey {
-			whyKey = "the record is stored under " + a.String() + " (the ID that was requested), not the ID in the record's own header: the first record (requested as 0x0000) lands under the wrong key"
-		}
+		return true
+	}
+	okKey := isHdrField(mu.Key, "ID")
+	whyKey := "map key is " + apOf(mu.Key).String()
+	if ld, ok := mu.Key.(*ssa.UnOp); ok && ld.Op == token.MUL && !okKey {
+		whyKey = "the record is stored under " + apOf(ld.X).String() + " (the ID that was requested), not the ID in the record's own header: the first record (requested as 0x0000) lands under the wrong key"
 	}
 	r.Check(okKey, name+"|map key", mu.Pos(), "key = header.ID", whyKey)
 
 	// value is the asserted Full Sensor Record of the body packet
 	r.Rule("value-is-decoded-record", "the stored value is the Full Sensor Record layer decoded from the body read", 1)
-	okVal := false
-	for _, f := range fsrs {
-		if mu.Value == ssa.Value(f) {
-			okVal = true
+	okVal := true
+	vos := viewOrigins(walk, mu.Value)
+	for _, o := range vos {
+		isF := false
+		for _, f := range fsrs {
+			if o == ssa.Value(f) {
+				isF = true
+			}
 		}
+		okVal = okVal && isF
 	}
+	okVal = okVal && len(vos) > 0
 	r.Check(okVal, name+"|map value", mu.Pos(), "value = decoded *FullSensorRecord", "stored value is not the decoded Full Sensor Record")
 
 	// (2) guards
 	r.Rule("store-guards", "the store is behind: header type == Full Sensor, length within the supported maximum, a successful second Get SDR with Offset = header length and Length = header.Length under this walk's reservation", 5)
 	// header type test
 	var typeEdge *edge
-	for _, ifi := range ifsOf(walk) {
+	for _, ifi := range viewIfs(walk) {
 		op, x, y, neg, isBin := condOf(ifi.Cond)
 		if !isBin || (op != token.EQL && op != token.NEQ) {
 			continue
 		}
 		for _, pr := range [][2]ssa.Value{{x, y}, {y, x}} {
-			ld, ok := pr[0].(*ssa.UnOp)
-			if !ok || ld.Op != token.MUL {
-				continue
-			}
-			a := apOf(ld.X)
-			isHdr := false
-			for _, h := range hdrs {
-				if a.Root == ssa.Value(h) && a.SelString() == "Type" {
-					isHdr = true
-				}
-			}
 			k, isK := constInt(pr[1])
-			if isHdr && isK && k == 1 { // RecordTypeFullSensor = 0x01
+			if isHdrField(pr[0], "Type") && isK && k == 1 { // RecordTypeFullSensor = 0x01
 				e := edge{ifi.Block(), ifi.Block().Succs[0]}
 				if (op == token.NEQ) != neg {
 					e = edge{ifi.Block(), ifi.Block().Succs[1]}
@@ -129,32 +151,24 @@ func checkC14(c *Ctx, r *Report) {
 	}
 	// size guard: header.Length > max → error return
 	okSize := false
-	for _, ifi := range ifsOf(walk) {
+	for _, ifi := range viewIfs(walk) {
 		op, x, y, _, isBin := condOf(ifi.Cond)
 		if !isBin || (op != token.GTR && op != token.GEQ) {
 			continue
 		}
-		ld, ok := x.(*ssa.UnOp)
-		if !ok || ld.Op != token.MUL {
+		if !isHdrField(x, "Length") {
 			continue
 		}
-		a := apOf(ld.X)
-		for _, h := range hdrs {
-			if a.Root == ssa.Value(h) && a.SelString() == "Length" {
-				if k, isK := constInt(y); isK && k >= 59 && k <= 255 {
-					// the "too long" arm must not reach the store
-					if !reachAvoiding(walk, ifi.Block().Succs[0], nil, nil)[mu.Block()] || ifi.Block().Succs[0] == mu.Block() {
-						okSize = !reachAvoiding(walk, ifi.Block().Succs[0], nil, nil)[mu.Block()]
-					}
-				}
-			}
+		if k, isK := constInt(y); isK && k >= 59 && k <= 255 {
+			// the "too long" arm must not reach the store
+			okSize = !reachAvoiding(walk, ifi.Block().Succs[0], nil, nil)[mu.Block()]
 		}
 	}
 	r.Check(okSize, name+"|size guard", mu.Pos(), "over-long records are an error, never stored truncated", "no guard rejecting records longer than the supported maximum before the body read")
 
 	// the request object and its stores
 	sends := []*ssa.Call{}
-	allInstrs(walk, false, func(in ssa.Instruction) {
+	viewInstrs(walk, func(in ssa.Instruction) {
 		if call, ok := in.(*ssa.Call); ok && call.Call.IsInvoke() && call.Call.Method.Name() == "SendCommand" {
 			sends = append(sends, call)
 		}
@@ -173,7 +187,7 @@ func checkC14(c *Ctx, r *Report) {
 		st  *ssa.Store
 	}
 	var rs []reqStore
-	allInstrs(walk, false, func(in ssa.Instruction) {
+	viewInstrs(walk, func(in ssa.Instruction) {
 		if sel, _, st, ok := storeSel(in); ok && strings.HasPrefix(sel, "Req.") {
 			rs = append(rs, reqStore{sel, st})
 		}
@@ -182,47 +196,37 @@ func checkC14(c *Ctx, r *Report) {
 		var best *ssa.Store
 		for _, s := range rs {
 			if s.sel == sel && mustPrecede(walk, s.st, at) && s.st.Block() == at.Block() || (s.sel == sel && s.st.Block() != at.Block() && mustPrecede(walk, s.st, at)) {
-				if best == nil || canReach(best, s.st) {
+				if best == nil || canReachIn(walk, best, s.st) {
 					best = s.st
 				}
 			}
 		}
 		return best
 	}
-	isHdrField := func(v ssa.Value, f string) bool {
-		ld, ok := v.(*ssa.UnOp)
-		if !ok || ld.Op != token.MUL {
-			return false
-		}
-		a := apOf(ld.X)
-		for _, h := range hdrs {
-			if a.Root == ssa.Value(h) && a.SelString() == f {
-				return true
-			}
-		}
-		return false
-	}
 	offSt := lastStoreBefore("Req.Offset", bodySend)
 	lenSt := lastStoreBefore("Req.Length", bodySend)
 	okOff := false
 	if offSt != nil {
-		if k, isK := constInt(offSt.Val); isK && k == 5 && canReach(hdrSend, offSt) {
+		if k, isK := constInt(offSt.Val); isK && k == 5 && canReachIn(walk, hdrSend, offSt) {
 			okOff = true
 		}
 	}
 	r.Check(okOff, name+"|body read offset", bodySend.Pos(), "Offset = 5 (header length)", "the body read does not start at offset 5, right after the SDR header")
-	r.Check(lenSt != nil && isHdrField(lenSt.Val, "Length") && canReach(hdrSend, lenSt), name+"|body read length", bodySend.Pos(), "Length = header.Length", "the body read does not request exactly header.Length bytes")
+	r.Check(lenSt != nil && isHdrField(lenSt.Val, "Length") && canReachIn(walk, hdrSend, lenSt), name+"|body read length", bodySend.Pos(), "Length = header.Length", "the body read does not request exactly header.Length bytes")
 	// store behind body read success
 	r.Check(mustPrecede(walk, bodySend, mu), name+"|store after body read", mu.Pos(), "body read precedes the store", "the record is stored without a preceding body read")
 
 	// reservation: the request literal's ReservationID from the Reserve call's result
 	r.Rule("reservation", "partial reads use the reservation ID obtained at the start of this walk", 1)
 	okRes := false
-	allInstrs(walk, false, func(in ssa.Instruction) {
+	viewInstrs(walk, func(in ssa.Instruction) {
 		if sel, _, st, ok := storeSel(in); ok && strings.HasSuffix(sel, "ReservationID") && strings.Contains(sel, "Req") {
 			if ld, isLd := st.Val.(*ssa.UnOp); isLd {
-				a := apOf(ld.X)
-				if ex, isEx := a.Root.(*ssa.Extract); isEx && a.SelString() == "ReservationID" {
+				for _, a := range viewAPs(walk, ld.X) {
+					ex, isEx := a.Root.(*ssa.Extract)
+					if !isEx || a.SelString() != "ReservationID" {
+						continue
+					}
 					if call, isCall := ex.Tuple.(*ssa.Call); isCall && call.Call.IsInvoke() && call.Call.Method.Name() == "ReserveSDRRepository" && mustPrecede(walk, call, hdrSend) {
 						okRes = true
 					}
@@ -236,7 +240,7 @@ func checkC14(c *Ctx, r *Report) {
 	r.Rule("next-chain", "after each record the next request asks for the response's Next record ID with offset 0 and the header length; the first request asks for 0x0000", 4)
 	var nextSt, off0, len5 *ssa.Store
 	for _, s := range rs {
-		if !canReach(hdrSend, s.st) || !canReach(s.st, hdrSend) {
+		if !canReachIn(walk, hdrSend, s.st) || !canReachIn(walk, s.st, hdrSend) {
 			continue
 		}
 		switch s.sel {
@@ -260,12 +264,12 @@ func checkC14(c *Ctx, r *Report) {
 	}
 	r.Check(okNext, name+"|next record", walk.Pos(), "RecordID ← Rsp.Next", "the next request's record ID is not taken from the last response's Next field")
 	// the reset must happen on every path from the store/type test back to the header request, including after a body read
-	r.Check(off0 != nil && len5 != nil && canReach(bodySend, off0) && canReach(bodySend, len5), name+"|reset to header read", walk.Pos(), "Offset ← 0, Length ← 5 before the next header read", "offset/length are not reset to a header read (0, 5) after a body read")
+	r.Check(off0 != nil && len5 != nil && canReachIn(walk, bodySend, off0) && canReachIn(walk, bodySend, len5), name+"|reset to header read", walk.Pos(), "Offset ← 0, Length ← 5 before the next header read", "offset/length are not reset to a header read (0, 5) after a body read")
 	// initial literal
 	// stores to the request that happen before the loop define the first request
 	first := map[string][]ssa.Value{}
 	for _, s0 := range rs {
-		if mustPrecede(walk, s0.st, hdrSend) && !canReach(hdrSend, s0.st) {
+		if mustPrecede(walk, s0.st, hdrSend) && !canReachIn(walk, hdrSend, s0.st) {
 			first[s0.sel] = append(first[s0.sel], s0.st.Val)
 		}
 	}
@@ -284,7 +288,7 @@ func checkC14(c *Ctx, r *Report) {
 	r.Check(okFirst, name+"|first request", walk.Pos(), "RecordID 0x0000, Offset 0, Length 5", "the first request is not a header read of record 0x0000")
 	// (4) loop exit
 	okExit := false
-	for _, ifi := range ifsOf(walk) {
+	for _, ifi := range viewIfs(walk) {
 		op, x, y, _, isBin := condOf(ifi.Cond)
 		if isBin && (op == token.NEQ || op == token.EQL) {
 			if ld, ok := x.(*ssa.UnOp); ok && ld.Op == token.MUL && apOf(ld.X).SelString() == "Req.RecordID" {
@@ -303,7 +307,7 @@ func checkC14(c *Ctx, r *Report) {
 			ok := !isNilConst(ret.Results[1])
 			r.Check(ok, name+"|error return after "+lastCallBefore(ret), ret.Pos(), "nil map with an error", "returns (nil, nil)")
 		} else {
-			r.Check(isNilConst(ret.Results[1]) && !canReach(ret, hdrSend), name+"|final return", ret.Pos(), "map returned with nil error after the loop", "a partial map is returned together with an error or from inside the loop")
+			r.Check(isNilConst(ret.Results[1]) && !canReachIn(walk, ret, hdrSend), name+"|final return", ret.Pos(), "map returned with nil error after the loop", "a partial map is returned together with an error or from inside the loop")
 		}
 	}
 	// error discipline: each SendCommand result goes through ValidateResponse and is tested
@@ -325,14 +329,15 @@ func checkC14(c *Ctx, r *Report) {
 		r.Check(tested, fmt.Sprintf("%s|SendCommand#%d validated", name, i), s.Pos(), "completion code and error validated", "a Get SDR exchange's error/completion code is not validated before its payload is used")
 	}
 
-	// (5),(6) outer closure
+	// (5),(6) outer closure. The walk is an anchor here: it is referred to by its call.
+	markOpaque(walk)
 	var outer *RetrySite
 	for _, rs := range c.RetrySites() {
 		if rs.Op == nil {
 			continue
 		}
 		calls := false
-		allInstrs(rs.Op, false, func(in ssa.Instruction) {
+		viewInstrs(rs.Op, func(in ssa.Instruction) {
 			if cc := asCall(in); cc != nil && cc.StaticCallee() == walk {
 				calls = true
 			}
@@ -353,7 +358,7 @@ func checkC14(c *Ctx, r *Report) {
 	r.Fn(c.FnName(outer.Parent))
 	var infoCalls []*ssa.Call
 	var walkCall *ssa.Call
-	allInstrs(op, false, func(in ssa.Instruction) {
+	viewInstrs(op, func(in ssa.Instruction) {
 		if call, ok := in.(*ssa.Call); ok {
 			if call.Call.IsInvoke() && call.Call.Method.Name() == "GetSDRRepositoryInfo" {
 				infoCalls = append(infoCalls, call)
@@ -379,18 +384,29 @@ func checkC14(c *Ctx, r *Report) {
 		ok    bool
 	}
 	var cmps []cmpInfo
-	for _, ifi := range ifsOf(op) {
+	rootIs := func(v ssa.Value, c0 *ssa.Call) (string, bool) {
+		aps := viewAPs(op, v)
+		if len(aps) == 0 {
+			return "", false
+		}
+		sel := aps[0].SelString()
+		for _, a := range aps {
+			ex, ok := a.Root.(*ssa.Extract)
+			if !ok || ex.Tuple != ssa.Value(c0) || a.SelString() != sel {
+				return "", false
+			}
+		}
+		return sel, true
+	}
+	for _, ifi := range viewIfs(op) {
 		call, isCall := ifi.Cond.(*ssa.Call)
 		if !isCall || calleeName(&call.Call) != "(time.Time).Before" {
 			continue
 		}
-		l, rr := apOf(call.Call.Args[0]), apOf(call.Call.Args[1])
-		rootIs := func(a AP, c0 *ssa.Call) bool {
-			ex, ok := a.Root.(*ssa.Extract)
-			return ok && ex.Tuple == ssa.Value(c0)
-		}
-		ci := cmpInfo{ifi: ifi, field: l.SelString()}
-		ci.ok = rootIs(l, before) && rootIs(rr, after) && l.SelString() == rr.SelString()
+		lf, lok := rootIs(call.Call.Args[0], before)
+		rf, rok := rootIs(call.Call.Args[1], after)
+		ci := cmpInfo{ifi: ifi, field: lf}
+		ci.ok = lok && rok && lf == rf
 		cmps = append(cmps, ci)
 	}
 	seen := map[string]bool{}
@@ -400,48 +416,63 @@ func checkC14(c *Ctx, r *Report) {
 		}
 	}
 	r.Check(seen["LastAddition"] && seen["LastErase"], oname+"|timestamp comparisons", op.Pos(), "initial.LastAddition < final.LastAddition and initial.LastErase < final.LastErase are both tested", fmt.Sprintf("the before/after comparison of both LastAddition and LastErase is missing or compares the wrong values (found %v)", seen))
-	// the result cell is stored only on paths where all comparisons were false
+	// the result cell is stored only on feasible paths where every comparison was false
 	var cell *ssa.FreeVar
-	var cellStores []*ssa.Store
-	allInstrs(op, false, func(in ssa.Instruction) {
-		if fc, _, ok := capturedCellStore(in); ok {
+	nStores := map[ssa.Instruction]bool{}
+	okPub := true
+	whyPub := ""
+	complete := enumPaths(op, 2, 50000, func(p CPath) {
+		ins := p.Instrs()
+		for k, in := range ins {
+			fc, val, ok := capturedCellStore(in)
+			if !ok {
+				continue
+			}
 			cell = fc
-			cellStores = append(cellStores, in.(*ssa.Store))
+			nStores[in] = true
+			fields := map[string]bool{}
+			for _, tk := range p.Ifs() {
+				for _, ci := range cmps {
+					if ci.ok && ci.ifi == tk.If {
+						if tk.Arm {
+							okPub, whyPub = false, "stored on a path where the "+ci.field+" comparison reported a newer timestamp"
+						} else {
+							fields[ci.field] = true
+						}
+					}
+				}
+			}
+			if !fields["LastAddition"] || !fields["LastErase"] {
+				okPub, whyPub = false, "stored on a path that skips a timestamp comparison"
+			}
+			afterSeen := false
+			for _, x := range ins[:k] {
+				if x == ssa.Instruction(after) {
+					afterSeen = true
+				}
+			}
+			if !afterSeen {
+				okPub, whyPub = false, "stored before the second info read"
+			}
+			v := p.Resolve(val)
+			if al, ok := v.(*ssa.Alloc); ok {
+				if sv := singleStore(al); sv != nil {
+					v = p.Resolve(sv)
+				}
+			}
+			if ex, ok := p.AP(v).Root.(*ssa.Extract); !ok || ex.Tuple != ssa.Value(walkCall) {
+				okPub, whyPub = false, "the stored value is not this walk's result"
+			}
+			if ret, isRet := p.Last().(*ssa.Return); !isRet || len(ret.Results) != 1 || !isNilConst(p.Resolve(ret.Results[0])) {
+				okPub, whyPub = false, "the result is stored on a path that then reports an error (the walk is retried, the stored result is stale)"
+			}
 		}
 	})
-	okPub := cell != nil && len(cellStores) == 1
-	if okPub {
-		st := cellStores[0]
-		avoid := map[edge]bool{}
-		for _, ci := range cmps {
-			if ci.ok {
-				avoid[edge{ci.ifi.Block(), ci.ifi.Block().Succs[1]}] = true
-			}
-		}
-		// store must be unreachable if any "false" edge is removed: i.e. every path to it takes all false edges.
-		for e := range avoid {
-			if reachAvoiding(op, nil, nil, map[edge]bool{e: true})[st.Block()] {
-				okPub = false
-			}
-		}
-		if len(avoid) < 2 {
-			okPub = false
-		}
-		// the stored value is the walk's result and the path returns nil
-		a := apOf(st.Val)
-		if al, ok := st.Val.(*ssa.Alloc); ok {
-			if sv := singleStore(al); sv != nil {
-				a = apOf(sv)
-			}
-		}
-		if ex, ok := a.Root.(*ssa.Extract); !ok || ex.Tuple != ssa.Value(walkCall) {
-			okPub = false
-		}
-		if !mustPrecede(op, after, st) {
-			okPub = false
-		}
+	if !complete {
+		r.Unk(oname+"|publish result", op.Pos(), "too many paths")
+	} else {
+		r.Check(okPub && cell != nil && len(nStores) == 1, oname+"|publish result", op.Pos(), "result assigned only when the repository did not change, after the second info read", "the walk's result is published on a path where a timestamp comparison was true or skipped, or before the second info read: "+whyPub)
 	}
-	r.Check(okPub, oname+"|publish result", op.Pos(), "result assigned only when the repository did not change, after the second info read", "the walk's result is published on a path where a timestamp comparison was true or skipped, or before the second info read")
 	// (6) parent returns *cell only after Retry returned nil
 	okRet := false
 	if cell != nil {
@@ -455,8 +486,11 @@ func checkC14(c *Ctx, r *Report) {
 						if !reachAvoiding(outer.Parent, nil, nil, map[edge]bool{{ifi.Block(), ifi.Block().Succs[1]}: true})[ret.Block()] {
 							for _, l := range leavesOf(ret.Results[0]) {
 								if ld, ok := l.(*ssa.UnOp); ok {
+									if ld.X == bind {
+										okRet = true // the captured variable holds the repository itself
+									}
 									if ld2, ok := ld.X.(*ssa.UnOp); ok && ld2.X == bind {
-										okRet = true
+										okRet = true // the captured variable holds a pointer to it
 									}
 								}
 							}
